@@ -5,37 +5,102 @@
    [separated v N Us] holds for every history of a repaired tree and, on the unchanged tree, for the
    histories in which no dApp name is a prefix of another name ++ user address and none is empty;
    [op_in] bounds the creation bond by the maximum on a tree that does not check it. *)
-From Sekai Require Import Base.Prelude Base.Dec Model.Layer2 Model.C20Check Proofs.Layer2 Proofs.Layer2Lp.
+From Sekai Require Import Base.Prelude Base.Dec Model.Layer2 Model.C20Check Proofs.Layer2 Proofs.Layer2Lp Proofs.Layer2Chk.
 From Coq Require Import QArith.
 Open Scope Z_scope.
 
+(* ================================================================ the tree as it is (repaired) -- full strength.
+   [fixed v]: none of the three repaired defects (what the harness probes on every run; [current_fixed]).
+   [wf_op]: senders are not the module account, the LP denomination is not ukex, and the creation bond of a
+   holder of the bond-free creation permission is neither negative nor in a foreign denomination (the two
+   inputs outside the modelled domain).  No restriction on names, amounts, order, users or block times. *)
+Theorem C20_current_tree_is_fixed : fixed (mkVariant false false false true true) /\ fixed repaired.
+Proof. exact (conj current_fixed repaired_fixed). Qed.
+Print Assumptions C20_current_tree_is_fixed.
+
+(* each user's recorded bond equals what he deposited minus what he reclaimed, and that is the money that moved *)
+Theorem C20_user_bond_is_deposits_minus_reclaims :
+  forall v c, fixed v -> forall pre ops l, 0 <= bal MOD UKEX l -> Forall wf_op (pre ++ ops) -> forallb is_user_op ops = true ->
+  let st := run v c pre (empty_state l) in
+  (forall n u, bond_amt n u (bonds (run v c ops st)) = bond_amt n u (bonds st) + net_flow v c ops st n u)
+  /\ (forall u, u <> MOD -> bal u UKEX (led (run v c ops st)) = bal u UKEX (led st) - net_out v c ops st u).
+Proof. exact deposits_fixed. Qed.
+Print Assumptions C20_user_bond_is_deposits_minus_reclaims.
+
+Theorem C20_total_is_sum_of_user_bonds :
+  forall v c, fixed v -> forall ops l, 0 <= bal MOD UKEX l -> Forall wf_op ops ->
+  forall n d, find_dapp n (dapps (run v c ops (empty_state l))) = Some d -> d_status d = 0 ->
+  d_total d = sum_bonds n (bonds (run v c ops (empty_state l))).
+Proof. exact total_is_sum_fixed. Qed.
+Print Assumptions C20_total_is_sum_of_user_bonds.
+
+Theorem C20_total_le_max :
+  forall v c, fixed v -> forall ops l, 0 <= bal MOD UKEX l -> Forall wf_op ops ->
+  forall n d, find_dapp n (dapps (run v c ops (empty_state l))) = Some d -> d_status d = 0 -> d_total d <= max_thr c.
+Proof. exact total_max_fixed. Qed.
+Print Assumptions C20_total_le_max.
+
+Theorem C20_failed_bootstrap_refunds_all :
+  forall v c, fixed v -> forall ops l d, 0 <= bal MOD UKEX l -> Forall wf_op ops ->
+  let st := run v c ops (empty_state l) in
+  find_dapp (d_name d) (dapps st) = Some d -> d_status d = 0 -> d_total d < min_thr c ->
+  exists st', finish v c d st = Ok st'
+    /\ find_dapp (d_name d) (dapps st') = None
+    /\ (forall e, In e (bonds st') -> fst (fst e) <> d_name d)
+    /\ (forall u, u <> MOD -> bal u UKEX (led st') = bal u UKEX (led st) + bond_amt (d_name d) u (bonds st)).
+Proof. exact refund_fixed. Qed.
+Print Assumptions C20_failed_bootstrap_refunds_all.
+
+Theorem C20_pool_bond_held_by_module :
+  forall v c, fixed v -> forall ops l, 0 <= bal MOD UKEX l -> Forall wf_op ops ->
+  sum_totals (dapps (run v c ops (empty_state l))) <= bal MOD UKEX (led (run v c ops (empty_state l))).
+Proof. exact bond_held_fixed. Qed.
+Print Assumptions C20_pool_bond_held_by_module.
+
+(* the spec checker accepts the model's runs: the observed-state clauses (total-sum, max, held) after any
+   history, the user-message clauses (escrow, frame, reject) on every create / bond / reclaim step *)
+Theorem C20_chk_sound_state :
+  forall v c users dens ok ops l, fixed v -> 0 <= bal MOD UKEX l -> Forall wf_op ops ->
+  state_clauses c (snap users dens ok (run v c ops (empty_state l))) = [].
+Proof. exact state_clauses_sound_fixed. Qed.
+Print Assumptions C20_chk_sound_state.
+Theorem C20_chk_sound_user_step :
+  forall v c N Us users dens, separated v N Us -> users_ok Us -> NoDup users -> users_ok users ->
+  forall st o u n g, Inv c N Us st -> op_in v c N Us o -> op_actor o = Some (u, n) -> In u users ->
+  g_prev g = snap users dens true st ->
+  user_clauses users g (snap users dens (is_ok (step v c st o)) (apply v c st o)) u n = [].
+Proof. exact user_clauses_sound. Qed.
+Print Assumptions C20_chk_sound_user_step.
+
+(* ================================================================ any variant of the tree (guards exclude exactly the
+   inputs on which the unrepaired defects bite); the [_refuted] theorems are about the unrepaired variant bits *)
 (* While a dApp is bootstrapping, each user's recorded bond equals what that user deposited minus what
    it reclaimed -- over any sequence of create / bond / reclaim messages of any users, accepted or not,
    and the money that left (entered) the user's account is exactly that amount *)
-Theorem C20_user_bond_is_deposits_minus_reclaims :
+Theorem C20_user_bond_is_deposits_minus_reclaims_any_variant :
   forall v c N Us, separated v N Us -> users_ok Us ->
   forall ops st, Inv c N Us st -> Forall (op_in v c N Us) ops -> forallb is_user_op ops = true ->
   (forall n u, bond_amt n u (bonds (run v c ops st)) = bond_amt n u (bonds st) + net_flow v c ops st n u)
   /\ (forall u, u <> MOD -> bal u UKEX (led (run v c ops st)) = bal u UKEX (led st) - net_out v c ops st u).
 Proof. exact deposits_minus_reclaims. Qed.
-Print Assumptions C20_user_bond_is_deposits_minus_reclaims.
+Print Assumptions C20_user_bond_is_deposits_minus_reclaims_any_variant.
 
 (* the dApp's total bond is the sum of the user bonds -- after any history of messages and blocks *)
-Theorem C20_total_is_sum_of_user_bonds :
+Theorem C20_total_is_sum_of_user_bonds_any_variant :
   forall v c N Us, separated v N Us -> users_ok Us ->
   forall ops l, 0 <= bal MOD UKEX l -> Forall (op_in v c N Us) ops ->
   forall n d, find_dapp n (dapps (run v c ops (empty_state l))) = Some d -> d_status d = 0 ->
   d_total d = sum_bonds n (bonds (run v c ops (empty_state l))).
 Proof. exact total_is_sum. Qed.
-Print Assumptions C20_total_is_sum_of_user_bonds.
+Print Assumptions C20_total_is_sum_of_user_bonds_any_variant.
 
 (* ... and never exceeds the maximum dApp bond ([op_in] asks creation bonds <= max on a tree that does not check) *)
-Theorem C20_total_le_max :
+Theorem C20_total_le_max_any_variant :
   forall v c N Us, separated v N Us -> users_ok Us ->
   forall ops l, 0 <= bal MOD UKEX l -> Forall (op_in v c N Us) ops ->
   forall n d, find_dapp n (dapps (run v c ops (empty_state l))) = Some d -> d_status d = 0 -> d_total d <= max_thr c.
 Proof. exact total_max. Qed.
-Print Assumptions C20_total_le_max.
+Print Assumptions C20_total_le_max_any_variant.
 (* unchanged tree: the creation bond is not checked *)
 Theorem C20_total_le_max_refuted :
   exists d, find_dapp "big" (dapps (run as_is rcfg w_max rst0)) = Some d /\ d_status d = 0 /\ max_thr rcfg < d_total d.
@@ -45,7 +110,7 @@ Print Assumptions C20_total_le_max_refuted.
 (* a dApp that misses its minimum bond refunds every bonder in full: in every state reached by a history,
    when the EndBlocker finishes such a dApp it is removed, its records are removed and every user
    receives exactly the recorded bond (unchanged tree: provided no zero-amount record is left) *)
-Theorem C20_failed_bootstrap_refunds_all :
+Theorem C20_failed_bootstrap_refunds_all_any_variant :
   forall v c N Us, separated v N Us -> users_ok Us ->
   forall ops l d, 0 <= bal MOD UKEX l -> Forall (op_in v c N Us) ops ->
   let st := run v c ops (empty_state l) in
@@ -56,7 +121,7 @@ Theorem C20_failed_bootstrap_refunds_all :
     /\ (forall e, In e (bonds st') -> fst (fst e) <> d_name d)
     /\ (forall u, u <> MOD -> bal u UKEX (led st') = bal u UKEX (led st) + bond_amt (d_name d) u (bonds st)).
 Proof. exact refund_after_history. Qed.
-Print Assumptions C20_failed_bootstrap_refunds_all.
+Print Assumptions C20_failed_bootstrap_refunds_all_any_variant.
 (* unchanged tree, a bonder reclaimed everything: after the deadline nobody is refunded, the dApp stays *)
 Theorem C20_failed_bootstrap_refunds_all_refuted :
   let st := run as_is rcfg w_zero rst0 in
@@ -66,12 +131,12 @@ Proof. exact w_zero_ok. Qed.
 Print Assumptions C20_failed_bootstrap_refunds_all_refuted.
 
 (* the recorded bond of all dApps is held by the module account -- after any history *)
-Theorem C20_pool_bond_held_by_module :
+Theorem C20_pool_bond_held_by_module_any_variant :
   forall v c N Us, separated v N Us -> users_ok Us ->
   forall ops l, 0 <= bal MOD UKEX l -> Forall (op_in v c N Us) ops ->
   sum_totals (dapps (run v c ops (empty_state l))) <= bal MOD UKEX (led (run v c ops (empty_state l))).
 Proof. exact bond_held. Qed.
-Print Assumptions C20_pool_bond_held_by_module.
+Print Assumptions C20_pool_bond_held_by_module_any_variant.
 (* unchanged tree, dApp "ab" fails while "abc" is bootstrapping: the bonders of "abc" are paid out of the
    module but keep their records; 30700 recorded, 0 held *)
 Theorem C20_pool_bond_held_by_module_refuted :
